@@ -1629,7 +1629,19 @@ impl DnsOutPacket {
     }
 
     fn write_utf8(&mut self, s: &str) {
-        assert!(s.len() < 64);
+        // A label is at most 63 bytes (RFC 1035 section 2.3.4). A name learned
+        // from the network (whose labels are re-parsed here), or a name made
+        // longer by conflict renaming, can exceed that: cut the label instead
+        // of panicking in the daemon thread.
+        const LABEL_LEN_MAX: usize = 63;
+        let mut end = s.len().min(LABEL_LEN_MAX);
+        while !s.is_char_boundary(end) {
+            end -= 1;
+        }
+        if end < s.len() {
+            debug!("DNS label '{}' is too long, cut to {} bytes", s, end);
+        }
+        let s = &s[..end];
         self.write_byte(s.len() as u8);
         self.write_bytes(s.as_bytes());
     }
